@@ -9,4 +9,4 @@ if [ -f $out/demo.cpp ]; then
   (cd /tmp && timeout 120 /tmp/demo_${id}_unchanged > /tmp/demo_${id}_unchanged.txt 2>&1; timeout 120 /tmp/demo_${id}_changed > /tmp/demo_${id}_changed.txt 2>&1)
   if cmp -s /tmp/demo_${id}_unchanged.txt /tmp/demo_${id}_changed.txt; then echo "DEMO: no difference"; else echo "DEMO: outputs differ ($(wc -l < /tmp/demo_${id}_unchanged.txt) vs $(wc -l < /tmp/demo_${id}_changed.txt) lines)"; diff /tmp/demo_${id}_unchanged.txt /tmp/demo_${id}_changed.txt | head -8; fi
 fi
-git -C /repo apply --check $out/patch.diff && git -C /repo apply $out/patch.diff && ( cd /verif && ./check $id 2>&1 | grep -v "^KNOWN" | cut -c1-300 | head -4; echo "check exit: ${PIPESTATUS[0]}" ); git -C /repo checkout -- .
+git -C /repo apply --check $out/patch.diff && git -C /repo apply $out/patch.diff && ( cd /verif && ./check $id 2>&1 | grep -v "^KNOWN" | cut -c1-300 | head -4; echo "check exit: ${PIPESTATUS[0]}" ); git -C /repo checkout -- .; git -C /verif checkout -- evidence/$id.json 2>/dev/null   # the evidence of a run against a changed tree is not the record of the unchanged one
